@@ -134,7 +134,7 @@ def strict_parse_of(cfg, t):
     return src[2][0], "strict"
 
 
-SEQ_ITER = re.compile(r"^seq::iterators::<impl std::iter::IntoIterator for &seq::slice::SeqSlice<A>>::into_iter$|^seq::iterators::<impl seq::slice::SeqSlice<A>>::iter$")
+SEQ_ITER = re.compile(r"^<&seq::slice::SeqSlice<A> as std::iter::IntoIterator>::into_iter$|^seq::slice::SeqSlice::<A>::iter$")
 
 
 def map_collect_of(t, target, fnpath):
